@@ -100,6 +100,9 @@ def _build(c, positive, layout, dimcoord=False, second=None):
     add_var(ds, 'temp', dims, wet_array(c, 'temp', dims, sizes, col, locdims), {'units': 'degC'})
     dims2 = tuple(d for d in ('t', 'k') + locdims if d in ('k',) + locdims or d == 't')
     add_var(ds, 'salt', dims2, wet_array(c, 'salt', dims2, sizes, col, locdims), {'units': 'PSU'})
+    # a static depth-resolved field (layer thickness, a climatology): the depth dimension and the horizontal ones, no time
+    dims3 = ('k',) + locdims
+    add_var(ds, 'thickness', dims3, wet_array(c, 'thickness', dims3, sizes, col, locdims), {'units': 'm'})
     add_var(ds, 'eta', ('t',) + locdims, sym_array(c, 'eta', tuple(sizes[d] for d in ('t',) + locdims), 'floatnan'), {'units': 'm'})
     add_var(ds, 'botz', locdims, sym_array(c, 'botz', tuple(sizes[d] for d in locdims), 'floatnan'), {'units': 'm'})
     add_var(ds, 'profile', ('t', 'k'), sym_array(c, 'profile', (sizes['t'], sizes['k']), 'floatnan'), {'note': 'no horizontal dimension'})
@@ -190,7 +193,7 @@ def scn_floor(c, positive, layout, nonspatial=True, dimcoord=False, second=None,
     if positive == 'absent':
         c.check('a missing positive attribute is guessed with a warning', any(e[0] == 'warning' for e in c.events))
     # ---- ghost lemma calls: the argmax theory at the layers the argument needs ------------------------------------
-    for name in ('temp', 'salt'):       # evaluate the results at the Skolem point first: this names the argmax lines involved
+    for name in ('temp', 'salt', 'thickness'):       # evaluate the results at the Skolem point first: this names the argmax lines involved
         if name in out._vars and set(out._vars[name].dims) <= set(point):
             out._vars[name].arr.fn(tuple(point[d] for d in out._vars[name].dims))
     lines = list(getattr(c, 'argmax_lines', []))
@@ -216,7 +219,7 @@ def scn_floor(c, positive, layout, nonspatial=True, dimcoord=False, second=None,
     check_unmodified(c, ds, snap, 'the dataset given to ocean_floor (values included: a second call sees the same dataset)')
     c.check('the input dataset is not modified', all(ds._vars[k].arr is a and ds._vars[k].dims == d and ds._vars[k].attrs == at for k, (d, a, at) in before.items()) and list(ds._vars) == list(before))
     # ---- the floor values ----------------------------------------------------------------------------------------------
-    for name in ('temp', 'salt'):
+    for name in ('temp', 'salt', 'thickness'):
         _floor_value_check(c, ds, out, name, dims, locdims, sizes, exists, K, point, 'floor')
 
 
